@@ -4,7 +4,7 @@ DTD defaults, into the constructed object.
 Shared definitions come from contracts/C01.py (module name contracts_C01 while it is being loaded)."""
 from pyvc.contract import Contract, Raises, LoopSpec
 from pyvc.values import *   # noqa
-from contracts_C01 import (P, O, TP, TNODE, A, flavor, unpack_value_c, unpack_boolean_c)
+from contracts_C01 import (P, O, TP, TNODE, A, flavor, unpack_boolean_c)
 
 CONTRACTS = []
 CLASS_SPECS = {}
@@ -14,13 +14,9 @@ INIT_ERR = {'TypeError': Raises(), 'ValueError': Raises()}
 KIDS = 'caller_tup_tree[2]'
 
 
-def check_node_for(element, required, children=None):
-    """check_node returns normally only when the required attributes of THAT element line are present (and, where
-    the line lists them, every child element is one of the allowed ones)."""
+def check_node_for(element, required):
+    """check_node returns normally only when the required attributes of THAT element line are present."""
     ens = [('required-attributes-present', ' and '.join(f"{a!r} in tup_tree[1]" for a in required) or 'True')]
-    if children is not None:
-        ens.append(('only-allowed-child-elements',
-                    f"forall(lambda k: tup_tree[2][k][0] in {tuple(children)!r}, 0, len(tup_tree[2]))"))
     return Contract(P + 'check_node', raises=PARSE_ERR, ensures=ens,
                     notes=f'{element} line: the general mechanism (a missing required attribute raises) is proved under C02 '
                           'for the QUALIFIER line (check_node[QUALIFIER line]) and assumed for this line')
@@ -37,6 +33,7 @@ def no_child(*names):
 
 unpack_value_null_c = Contract(
     P + 'unpack_value', returns=Opt(Ref('value')), raises=PARSE_ERR,
+    requires=[('TYPE-attribute-present', "'TYPE' in tup_tree[1]")],
     ensures=[('no-value-child-means-NULL',
               "implies(forall(lambda k: tup_tree[2][k][0] != 'VALUE' and tup_tree[2][k][0] != 'VALUE.ARRAY', 0, "
               "len(tup_tree[2])), result is None)")],
@@ -46,7 +43,7 @@ list_of_matching_c = Contract(P + 'list_of_matching', returns=ListOf('ref'), rai
 parse_emb_c = Contract(P + 'parse_embeddedObject', returns=Opt(Ref('object')),
                        raises={'CIMXMLParseError': Raises(), 'XMLParseError': Raises()},
                        ensures=[('NULL-stays-NULL', '(result is None) == (val is None)')],
-                       notes='proved under C01 (parse_embeddedObject[scalar])')
+                       notes='proved in contracts/C01.py (parse_embeddedObject[scalar]; [array]: an array stays an array)')
 
 EMBEDDED = ("implies('EmbeddedObject' in {A}, embedded_object == {A}['EmbeddedObject']) and "
             "implies('EmbeddedObject' not in {A} and 'EMBEDDEDOBJECT' in {A}, embedded_object == {A}['EMBEDDEDOBJECT']) and "
@@ -76,10 +73,6 @@ CONTRACTS.append(Contract(
 ARRAYSIZE_IS_DECIMAL = "implies('ARRAYSIZE' in tup_tree[1], inre(tup_tree[1]['ARRAYSIZE'], '[0-9]+'))"
 ARRAYSIZE = (f"implies('ARRAYSIZE' not in {A}, array_size is None) and "
              f"implies('ARRAYSIZE' in {A}, array_size == str2int({A}['ARRAYSIZE'], 10))")
-parse_emb_array_c = Contract(P + 'parse_embeddedObject', returns=Opt(Ref('object')),
-                             raises={'CIMXMLParseError': Raises(), 'XMLParseError': Raises()},
-                             ensures=[('NULL-stays-NULL', '(result is None) == (val is None)')],
-                             notes='proved under C01 (parse_embeddedObject[scalar] and [array]: an array stays an array)')
 property_array_init_c = Contract(
     O + 'CIMProperty.__init__', trusted=True, raises=INIT_ERR,
     requires=[('name-and-type-from-the-attributes', f"name == {A}['NAME'] and type == {A}['TYPE']"),
@@ -94,7 +87,7 @@ CONTRACTS.append(Contract(
     requires=[ARRAYSIZE_IS_DECIMAL],
     callees={'check_node': check_node_for('PROPERTY.ARRAY', ('NAME', 'TYPE')), 'unpack_value': unpack_value_null_c,
              'unpack_boolean': unpack_boolean_c, 'list_of_matching': list_of_matching_c,
-             'parse_embeddedObject': parse_emb_array_c, 'CIMProperty.__init__': property_array_init_c},
+             'parse_embeddedObject': parse_emb_c, 'CIMProperty.__init__': property_array_init_c},
     opaque=['CIMProperty'],
     ensures=[('a-CIMProperty', 'isinstance(result, CIMProperty)')],
     raises={'CIMXMLParseError': Raises(), 'XMLParseError': Raises()}))
@@ -205,10 +198,12 @@ def qualifier_declaration_contract(n):
               '(check_node[QUALIFIER line]: required-attributes-present, only-allowed-child-elements) and assumed for this line')
     unpack_value_c_ = Contract(
         P + 'unpack_value', returns=Opt(Ref('value')), raises=PARSE_ERR, trusted=True,
+        requires=[('TYPE-attribute-present', "'TYPE' in tup_tree[1]")],
         ensures=[('no-value-child-means-NULL', f"implies(not ({' or '.join(valueish) or 'False'}), result is None)"),
                  ('at-most-one-value-child', ' and '.join(f'not ({a} and {b})' for i, a in enumerate(valueish)
                                                           for b in valueish[i + 1:]) or 'True')],
-        notes='more than one VALUE / VALUE.ARRAY child raises CIMXMLParseError')
+        notes='the first fact is unpack_value[no value child] (end of this file) written out for a node with this many '
+              'children; the second is assumed: more than one VALUE / VALUE.ARRAY child raises CIMXMLParseError')
     init_c = Contract(
         O + 'CIMQualifierDeclaration.__init__', trusted=True, raises=INIT_ERR,
         requires=[('name-and-type-from-the-attributes', f"name == {A}['NAME'] and type == {A}['TYPE']"),
@@ -360,7 +355,7 @@ CONTRACTS.append(Contract(
 # evaluations of strip('/') are not decided equal by either solver, so the statement is: a namespace without border
 # slashes arrives unchanged)
 classname_obj_c = Contract(P + 'parse_classname', returns=Obj('CIMClassName', _classname=Str, _host=Lit(None), _namespace=Lit(None)),
-                           raises=PARSE_ERR, trusted=True, returns_ghost=None,
+                           raises=PARSE_ERR, trusted=True,
                            requires=[('CLASSNAME-is-the-second-child', 'tup_tree == caller_tup_tree[2][1]')],
                            notes='parse_classname (above) hands host=None, namespace=None to the constructor')
 instancename_obj_c = Contract(P + 'parse_instancename',
